@@ -616,7 +616,7 @@ def main(tier, replay=None):
     for n in GRID_LENS:
         for hi, hist in enumerate(INT_HISTS):
             for ci, ctor in enumerate(INT_CTORS):
-                if not quick or (ci + hi + n) % 2 == 0 or n in (1, 2, 3):
+                if True:
                     ps = grid_moduli(n, gi, True)
                     rs = grid_residues(ps)
                     add_sys("int", hist, fit_tt(INT_TTS[(gi + hi) % len(INT_TTS)], rs), ps, rs, grid_as(ps), ctor=ctor,
@@ -626,8 +626,6 @@ def main(tier, replay=None):
     for hist in INT_HISTS:
         for ctor in INT_CTORS:
             for order in INT_ORDERS:
-                if quick and (INT_HISTS.index(hist) + INT_CTORS.index(ctor) + INT_ORDERS.index(order)) % 2:
-                    continue
                 ps = grid_moduli(3 if order != "recipi" else 4, gi, True); gi += 1
                 rs = grid_residues(ps)
                 add_sys("int", hist, fit_tt(INT_TTS[gi % len(INT_TTS)], rs), ps, rs, grid_as(ps), ctor=ctor, order=order, grid=True)
@@ -654,7 +652,7 @@ def main(tier, replay=None):
                 add_sys("int", hist, fit_tt(tt, rs), ps, rs, gen_as(rng, ps, nas if n <= 17 else 2), ctor=ctor, order=rng.choice(INT_ORDERS))
     # ---- RNSsystem<Integer, Domain>: deterministic grid  lengths x histories, domains and first entry points cycling
     gi = 0
-    per = 3 if quick else len(DOMS)
+    per = 4 if quick else len(DOMS)
     for n in GRID_LENS:
         for hi, hist in enumerate(DOM_HISTS):
             for k in range(per):
@@ -666,7 +664,7 @@ def main(tier, replay=None):
             gi += 1
     for hist in DOM_HISTS:
         for order in DOM_ORDERS:
-            for k in range(2 if quick else 6):
+            for k in range(3 if quick else 6):
                 dom = DOMS[(gi + 7 * k) % len(DOMS)]; gi += 1
                 ps = grid_moduli(3 if order != "recipi" else 4, gi, dom_pred(dom)(2))
                 rs = grid_residues(ps)
